@@ -444,7 +444,7 @@ func realMain() {
 	// bytes that are blanks only for over-eager classifiers (VT, FF, and the UTF-8
 	// continuation bytes 0x85 / 0xA0 of NEL, NBSP and of letters such as à) must
 	// stay inside their word
-	tAlpha := enum.Bytes("a", "b", " ", "\t", "'", "''", "#", "$X", "${X}", "${X@R}", "$$", "${/}", "${:}", "\r", "\xc3\xa0", "\xc2\x85", "\x0b", "\x0c")
+	tAlpha := enum.Bytes("a", "b", " ", "\t", "'", "''", "#", "$X", "${X}", "${X@R}", "$$", "${/}", "${:}", "\r", "\xc3\xa0", "\xc2\x85", "\xc2\xa0", "\x0b", "\x0c")
 	n2 := 5
 	if th {
 		n2 = 6
